@@ -90,3 +90,6 @@ pub fn vf_collect_map<K: core::hash::Hash + Eq, V>(v: Vec<(K, V)>) -> (r: HashMa
     ensures r@ == seq_to_map(v@)
 { unimplemented!() }
 // ===== end =====
+// std::cmp::min / Ord::min: assumed std semantics (the smaller value; the first when equal)
+pub assume_specification<T: Ord>[ std::cmp::min ](a: T, b: T) -> (r: T)
+    ensures <T as vstd::std_specs::cmp::OrdSpec>::obeys_cmp_spec() ==> r == (if vstd::std_specs::cmp::OrdSpec::cmp_spec(&a, &b) == core::cmp::Ordering::Greater { b } else { a });
